@@ -996,7 +996,26 @@ func (e *fnEnc) slice(c *blockCtx, in *ssa.Slice) {
 		e.define(in, app(SSlice, "mk-slice", slBase(x), add(slOff(x), lo), sub(hi, lo), sub(max, lo)))
 	case *types.Pointer:
 		at := types.Unalias(t.Elem()).Underlying().(*types.Array)
-		r := e.val(in.X)
+		var r Term
+		if lv, ok := e.lvals[in.X]; ok && lv.kind == 1 && len(lv.path) == 0 && isLocalAllocField(in.X) {
+			// (&obj.arr)[lo:hi] for an array stored inline in a struct that this
+			// function has just allocated: the backing store is a separate fresh
+			// region (it cannot alias any other object). Its contents are not
+			// connected to direct reads of obj.arr (recorded as an assumption).
+			key := "inlinearr:" + lv.ref.S + "." + lv.owner.fields[lv.field].name
+			if t, ok := e.inlineArr[key]; ok {
+				r = t
+			} else {
+				r = e.newRef(c.st, "inlinearr")
+				if e.inlineArr == nil {
+					e.inlineArr = map[string]Term{}
+				}
+				e.inlineArr[key] = r
+			}
+			e.assumptions["inline array field of a local allocation sliced: element contents not related to direct reads of the field ("+lv.owner.name+"."+lv.owner.fields[lv.field].name+")"] = true
+		} else {
+			r = e.val(in.X)
+		}
 		n := intLit(at.Len())
 		if in.High != nil {
 			hi = e.toInt(e.val(in.High), in.High.Type())
@@ -1010,6 +1029,16 @@ func (e *fnEnc) slice(c *blockCtx, in *ssa.Slice) {
 	default:
 		e.fail("Slice on %s", in.X.Type())
 	}
+}
+
+// isLocalAllocField: v is &x.f with x allocated by this function.
+func isLocalAllocField(v ssa.Value) bool {
+	fa, ok := v.(*ssa.FieldAddr)
+	if !ok {
+		return false
+	}
+	_, ok = fa.X.(*ssa.Alloc)
+	return ok
 }
 
 func (e *fnEnc) makeSlice(c *blockCtx, in *ssa.MakeSlice) {
